@@ -855,6 +855,33 @@ pub fn run(ctx: &mut Ctx) -> Result<(), Violation> {
     });
     ctx.stage("hand-written-puzzles", true, r)?;
 
+    // r = 2: every puzzle with at most one given (quick) / at most two givens (thorough): exact equality
+    let mut small: Vec<Case> = Vec::new();
+    let blank = |giv: &Vec<Option<usize>>| -> String { giv.iter().map(|g| g.map(|d| d.to_string()).unwrap_or_else(|| ".".into())).collect() };
+    for c1 in 0..16usize {
+        for d1 in 1..=4usize {
+            let mut g = vec![None; 16];
+            g[c1] = Some(d1);
+            small.push(Case { root: 2, puzzle: blank(&g) });
+            if ctx.tier == Tier::Thorough {
+                for c2 in (c1 + 1)..16 {
+                    for d2 in 1..=4usize {
+                        let mut h = g.clone();
+                        h[c2] = Some(d2);
+                        small.push(Case { root: 2, puzzle: blank(&h) });
+                    }
+                }
+            }
+        }
+    }
+    let r = par_jobs(ctx, &small, |c, st| {
+        let rep = check_case(c)?;
+        record(c, &rep, st);
+        st.class("r2-all-puzzles-with-few-givens");
+        Ok(())
+    });
+    ctx.stage("r2-all-puzzles-with-few-givens", true, r)?;
+
     let cases = ctx.tier.pick(1_000, 40_000);
     let r = par_random(ctx, "random-puzzles", cases, 200, |tape, st| {
         let mut t = Tape::new(tape);
